@@ -62,7 +62,9 @@ def derived_patterns(rng, nodes):
     if files and rng.random() < 0.6:
         for comps in rng.sample(files, min(len(files), rng.choice([1, 2]))):
             k = rng.random()
-            if k < 0.25 and len(comps) > 1:
+            if len(comps) >= 3 and rng.random() < 0.5:
+                out.append("/" + comps[rng.randrange(1, len(comps) - 1)])   # root-anchored name of a directory that lies deeper
+            elif k < 0.25 and len(comps) > 1:
                 out.append("/".join(comps))                      # anchored path of a file
             elif k < 0.45 and len(comps) > 1:
                 out.append(comps[0] + "/*")                      # everything beneath a root-level directory
